@@ -4,6 +4,7 @@
 //! case: sstcp \t kind \t key \t ikeys(csv) \t users(csv hash:key, "none" = no user manager) \t mode \t own_salt \t addr|- \t now \t ops
 //! ops (';' separated):  E<hex> encode item (bytes compared) | e<hex> encode item (only status compared: random padding)
 //!                       D<hex> bytes arrive, FramedRead-style drain | N new connection (fresh codec+session, same context/salt cache)
+//!                       S<k> switch to connection k of the same context | T<secs> the clock now reads <secs> (later ops, every connection)
 use std::io::Write;
 use std::sync::Arc;
 
@@ -72,7 +73,7 @@ fn run_script<const N: usize>(kind: CipherKind, f: &[&str]) -> Vec<String> {
         if op.is_empty() {
             continue;
         }
-        if dead && op != "N" && !op.starts_with('S') {
+        if dead && op != "N" && !op.starts_with('S') && !op.starts_with('T') {
             out.push("SKIP".to_string());
             continue;
         }
@@ -93,6 +94,11 @@ fn run_script<const N: usize>(kind: CipherKind, f: &[&str]) -> Vec<String> {
                 }
                 cur = k;
                 out.push(format!("CONN{}", k));
+            }
+            "T" => {
+                // the clock moves on (a slow peer, a long-lived connection): validate_timestamp / new_header read it again
+                octo_squirrel::verif_clock::set(Some(arg.parse().unwrap()));
+                out.push("CLOCK".into());
             }
             "N" => {
                 let (c2, s2) = new_conn();
@@ -490,4 +496,6 @@ pub fn generate(w: &mut dyn Write, seed: u64, thorough: bool) {
             crate::emit_case(w, &a, exec);
         }
     }
+    // dimensions added by the audit of seeded/audit/aud-sst.md (own Rng stream: the cases above stay what they were for a seed)
+    crate::aud_sstcp::generate(w, seed, thorough);
 }
